@@ -49,6 +49,10 @@ def build(ctx):
     def fn(name):
         return ctx.fn(CR, "Crystal." + name)
 
+    cached = {name: info.decorators for name, info in cf.info.items() if any("cache" in d for d in info.decorators)}
+    ctx.ground("crystal.Crystal/memo_fields/no_decorator_caches", not cached, tag="F",
+               clause="no method is memoised by a caching decorator (lru_cache, cache, cached_property): such a cache is invisible to the invalidation discipline",
+               detail=cached, witness={"methods": cached, "history": "[cached query, state-changing operation, same query] returns the stale value"})
     mutators = []
     n_query = 0
     for name, node in cf.methods.items():
@@ -67,6 +71,10 @@ def build(ctx):
         # (4) writes into memo-held objects
         memo_obj_writes = {p: v for p, v in w.items() if any(p.startswith("self." + f + ".") or p.startswith("self." + f + "[") for f in memo_fields)}
         bad = {p: v for p, v in memo_obj_writes.items() if p != ANNOTATION}
+        # in-place mutation of the memoised object itself (sort/append/... on the stored list or dict) by anything but its own setattr
+        for p_, v_ in w.items():
+            if any(p_ == "self." + f for f in memo_fields) and v_[2] not in ("setattr", "delattr", "del"):
+                bad[p_] = v_
         ctx.ground(f"crystal.Crystal.{name}/assigns/memo.readonly", not bad, tag="F",
                    clause="no store into an object held by a memo field (except the write-once asym_mol_idx annotation made by symmetry_unique_molecules)",
                    detail={k: list(v) for k, v in bad.items()}, witness={k: list(v) for k, v in bad.items()}, fn=fn(name))
@@ -118,10 +126,13 @@ def build(ctx):
         fill_calls = [ln for callee, lines in info.self_calls.items() for ln in lines
                       if set(cf.closure_calls(callee) | {callee}) & set(fillers)]
         barrier = max([last_core_write] + fill_calls)
-        dels = dict(info.memo_dels)
+        top_lines = {st.lineno for st in cf.methods[name].body if isinstance(st, ast.Expr)}      # unconditional statements of the body
+        dels = {f: ln for f, ln in info.memo_dels.items() if ln in top_lines}
         for callee, lines in info.self_calls.items():
             for f, _ in cf.info[callee].memo_dels.items() if callee in cf.info else []:
-                dels[f] = max(dels.get(f, 0), max(lines))
+                ok_lines = [ln for ln in lines if ln in top_lines]
+                if ok_lines:
+                    dels[f] = max(dels.get(f, 0), max(ok_lines))
         for field in memo_fields:
             ok = field in dels and dels[field] >= barrier
             ctx.ground(f"crystal.Crystal.{name}/mutator.invalidates/{field}", ok, tag="F",
@@ -130,9 +141,12 @@ def build(ctx):
                        "history": f"[{[m for m, f in fillers.items() if f == field][0]}(), {name}(...), {[m for m, f in fillers.items() if f == field][0]}()]"}, fn=fn(name))
         # stored CIF dictionary
         comps = {p[5:] for p in core_w}
-        pops_cif = any(isinstance(n, ast.Call) and isinstance(n.func, ast.Attribute) and n.func.attr == "pop" and ast.unparse(n.func.value) == "self.properties"
-                       and n.args and isinstance(n.args[0], ast.Constant) and n.args[0].value == "cif_data" for n in ast.walk(cf.methods[name])) or \
-            any(isinstance(n, ast.Delete) and any(ast.unparse(t) == "self.properties['cif_data']" for t in n.targets) for n in ast.walk(cf.methods[name]))
+        # the drop must be unconditional: a top-level statement of the method body, after the last core store
+        top = [st for st in cf.methods[name].body if st.lineno >= last_core_write]
+        pops_cif = any(isinstance(st, ast.Expr) and isinstance(st.value, ast.Call) and isinstance(st.value.func, ast.Attribute) and st.value.func.attr == "pop"
+                       and ast.unparse(st.value.func.value) == "self.properties" and st.value.args and isinstance(st.value.args[0], ast.Constant)
+                       and st.value.args[0].value == "cif_data" for st in top) or \
+            any(isinstance(st, ast.Delete) and any(ast.unparse(t) == "self.properties['cif_data']" for t in st.targets) for st in top)
         stale = []
         if not pops_cif:
             for key, deps in cif_keys["fresh"].items():
